@@ -1,24 +1,34 @@
-"""C15, stage `depload`: k dependants of ONE cache-hit dependency race on loading its outputs (load_outputs=minimal).
+"""C15, stage `depload`: k dependants of ONE cache-hit dependency race on loading its outputs (load_outputs=minimal),
+without and WITH a cache fault (the blobs of the outputs m..n-1 are lost: the dependency has to be re-made by a dependant).
 Deterministic tie between coq/theories/DepLoad.v and the real Executor.LoadDependencyOutputs / Registry.LoadOutputs:
-harness/go/depload runs a schedule (which dependant starts when, which held blob read is released when) on the real code,
-waiting for quiescence after every token; the model's verdict for the same tokens is DepLoad.replay evaluated by coqc
-(vm_compute) on a generated cases file -- no extraction, no OCaml driver.
-Compared per window (= what happened between two tokens): the blob reads held at the gate, the reads that arrived,
-the commands that ran and what each saw.  Model-free oracle: every command saw every output current, no error, no hang."""
+harness/go/depload runs a schedule (which dependant starts when, which held blob read is released when, when a run of the
+dependency's command that waits at its gate goes on) on the real code, waiting for quiescence after every token; the
+model's verdict for the same tokens is DepLoad.replay evaluated by coqc (vm_compute) on a generated cases file -- no
+extraction, no OCaml driver.
+Compared per window (= what happened between two tokens): the blob reads held at the gate, the reads that arrived, the
+runs of the dependency's command waiting at their gate and started so far, the commands that ran and what each saw; at
+the end the bytes the cache holds after a re-run.  Model-free oracle: every command saw every output current, the
+dependency's command ran at most once (never two runs at the same time), no torn bytes cached, no error, no hang."""
 import ast, itertools, json, os, re, threading, time
 import vlib
 
 MAXN, MAXK = 3, 3
-VARIANTS = ("VCorrect", "VFlagEarly", "VRequestedOnce")
-NAMED = [  # (name, n, k, schedule)
-    ("second dependant arrives while the first is inside the restore", 1, 2, "s0,s1,g"),
-    ("second dependant arrives before the first has started", 1, 2, "s1,s0,g"),
-    ("second dependant arrives after the restore", 1, 2, "s0,g,s1"),
-    ("second dependant arrives between two restores", 2, 2, "s0,g,s1,g"),
-    ("three dependants, two arrive during the restore", 2, 3, "s0,s1,s2,g,g"),
-    ("three dependants, one during, one after", 2, 3, "s0,s1,g,g,s2"),
-    ("no outputs", 0, 3, "s0,s1,s2"),
-    ("three outputs released highest first", 3, 2, "s0,G,s1,G,G"),
+VARIANTS = ("VCorrect", "VFlagEarly", "VRequestedOnce", "VNoOuterLock")
+NAMED = [  # (name, n, k, schedule, lowest lost blob (n = none))
+    ("second dependant arrives while the first is inside the restore", 1, 2, "s0,s1,g", 1),
+    ("second dependant arrives before the first has started", 1, 2, "s1,s0,g", 1),
+    ("second dependant arrives after the restore", 1, 2, "s0,g,s1", 1),
+    ("second dependant arrives between two restores", 2, 2, "s0,g,s1,g", 2),
+    ("three dependants, two arrive during the restore", 2, 3, "s0,s1,s2,g,g", 2),
+    ("three dependants, one during, one after", 2, 3, "s0,s1,g,g,s2", 2),
+    ("no outputs", 0, 3, "s0,s1,s2", 0),
+    ("three outputs released highest first", 3, 2, "s0,G,s1,G,G", 3),
+    # cache fault while the dependency's outputs are being loaded (C15-F1): the dependency has to be re-made
+    ("the only blob is lost, both dependants are started before the re-run is let go", 1, 2, "s0,s1,r", 0),
+    ("the only blob is lost, the second dependant arrives after the re-run", 1, 2, "s0,r,s1", 0),
+    ("blob 1 of 2 is lost, second dependant arrives during the restore of output 0", 2, 2, "s0,s1,g,r", 1),
+    ("both blobs are lost, three dependants at once", 2, 3, "s0,s1,s2,r", 0),
+    ("blob 2 of 3 is lost, dependants arrive one by one while the first restores and re-runs", 3, 3, "s0,G,s1,g,s2,r", 2),
 ]
 
 
@@ -32,7 +42,23 @@ def small_schedules():
                     toks, it = [], iter(order)
                     for i in range(n + k):
                         toks.append("g" if i in gpos else "s%d" % next(it))
-                    res.append((n, k, ",".join(toks), ""))
+                    res.append((n, k, ",".join(toks), "", n))
+    return res
+
+
+def small_fault_schedules():
+    """The blobs m..n-1 lost (n <= 2): every interleaving of the k <= 3 starts (in every order) with the m releases of the
+    readable blobs and ONE `r` (the re-run is let go); m = 1 with k <= 2."""
+    res = []
+    for n, m, maxk in ((1, 0, 3), (2, 0, 3), (2, 1, 2)):
+        for k in range(1, maxk + 1):
+            for order in itertools.permutations(range(k)):
+                for gpos in itertools.combinations(range(m + 1 + k), m + 1):
+                    for rpos in gpos:
+                        toks, it = [], iter(order)
+                        for i in range(m + 1 + k):
+                            toks.append(("r" if i == rpos else "g") if i in gpos else "s%d" % next(it))
+                        res.append((n, k, ",".join(toks), "", m))
     return res
 
 
@@ -43,7 +69,11 @@ def random_schedules(r, count):
         k = r.choice([2, 2, 3, 3, 4, 5])
         started = r.sample(list(range(k)), k if r.chance(5, 6) else max(1, k - 1))
         toks = ["s%d" % t for t in started] + [r.choice(["g", "g", "G"]) for _ in range(r.below(n + 2))]
-        res.append((n, k, ",".join(r.shuffle(toks)), "".join(r.choice(["s", "m"]) for _ in range(n))))
+        lost = n
+        if n > 0 and r.chance(2, 5):      # a cache fault: the blobs lost..n-1 are gone, some dependant has to re-make the dependency
+            lost = r.below(n)
+            toks += ["r"] * (1 + r.below(2))
+        res.append((n, k, ",".join(r.shuffle(toks)), "".join(r.choice(["s", "m"]) for _ in range(n)), lost))
     return res
 
 
@@ -57,14 +87,15 @@ def parse_trace(line):
     end = ws.pop().split("/")
     windows = []
     for x in ws:
-        tok, held, evs = x.split("/")
-        windows.append({"tok": tok, "held": [] if held == "-" else [int(i) for i in held.split("+")],
+        tok, held, gate, evs = x.split("/")
+        windows.append({"tok": tok, "held": [] if held == "-" else [int(i) for i in held.split("+")], "gate": int(gate),
                         "events": [] if evs == "-" else evs.split(",")})
-    return {"windows": windows, "pending": [] if end[1] == "-" else [int(i) for i in end[1].split("+")], "verdict": end[2]}
+    return {"windows": windows, "pending": [] if end[1] == "-" else [int(i) for i in end[1].split("+")], "verdict": end[2],
+            "cached": end[3] if len(end) > 3 else "-"}
 
 
 def run_harness(binary, cases, jobs=4):
-    """cases: [(n, k, schedule, init)] -> parsed traces, same order; `jobs` harness processes side by side."""
+    """cases: [(n, k, schedule, init, lowest lost blob)] -> parsed traces, same order; `jobs` harness processes side by side."""
     chunks = [cases[i::jobs] for i in range(jobs)] if len(cases) >= 4 * jobs else [cases]
     outs, errs = [None] * len(chunks), []
 
@@ -72,7 +103,7 @@ def run_harness(binary, cases, jobs=4):
         d = os.path.join(vlib.scratch(), "depload-%d" % i)
         os.makedirs(d, exist_ok=True)
         try:
-            rc, lines, err = vlib.run_lines(binary, ["case\t%d\t%d\t%s\t%s" % c for c in chunks[i]] + ["caps"], timeout=1500, args=(d,))
+            rc, lines, err = vlib.run_lines(binary, ["case\t%d\t%d\t%s\t%s\t%d" % c for c in chunks[i]] + ["caps"], timeout=1500, args=(d,))
             if rc != 0 or len(lines) != len(chunks[i]) + 1:
                 errs.append("harness exit %s, %d answers for %d cases: %s" % (rc, len(lines), len(chunks[i]), err[-800:]))
             outs[i] = lines
@@ -99,6 +130,8 @@ def model_tokens(n, tr):
         t = w["tok"]
         if t.startswith("s"):
             toks.append("A %d" % int(t[1:]))
+        elif t.startswith("r"):
+            toks.append("C")               # r:- (no run was waiting) is not enabled in the model either, or it is a difference
         elif t == "g:-":
             toks.append("B %d" % n)        # nothing held: an index that is never enabled
         else:
@@ -107,20 +140,21 @@ def model_tokens(n, tr):
 
 
 def model_eval(cases, traces):
-    """-> {(variant, asc): [windows per case]}; a window = [[enabled, held...], [task, bit...]...], last entry [[not done...]]"""
+    """-> {(variant, asc): [windows per case]}; a window = [[enabled, runs at gate, runs so far], [held...], [task, 1|0|2 per output]...],
+    last entry [[not done...], [task, 1|0|2 per output cached by its re-run]...]"""
     d = os.path.join(vlib.scratch(), "depload-coq-%d" % time.time_ns())
     os.makedirs(d)
     src = ["From Coq Require Import List Arith.", "Import ListNotations.", "From Grog Require Import DepLoad.",
-           "Definition A := TStart.", "Definition B := TRelease."]
+           "Definition A := TStart.", "Definition B := TRelease.", "Definition C := TGo."]
     names = []
     for c0 in range(0, len(cases), 400):
-        rows = ["(%d, %d, [%s])" % (cases[i][0], cases[i][1], "; ".join(model_tokens(cases[i][0], traces[i])))
+        rows = ["(%d, %d, %d, [%s])" % (cases[i][0], cases[i][1], cases[i][4], "; ".join(model_tokens(cases[i][0], traces[i])))
                 for i in range(c0, min(c0 + 400, len(cases)))]
         names.append("cs%d" % c0)
-        src.append("Definition cs%d : list (nat * nat * list token) := [%s]." % (c0, ";\n ".join(rows)))
-    src.append("Definition ev (v : variant) (asc : bool) (cs : list (nat * nat * list token)) :=\n"
-               "  map (fun c => match c with (n, k, toks) => replay v asc n k toks end) cs.")
-    keys = [("VCorrect", True), ("VCorrect", False), ("VFlagEarly", True), ("VRequestedOnce", True)]
+        src.append("Definition cs%d : list (nat * nat * nat * list token) := [%s]." % (c0, ";\n ".join(rows)))
+    src.append("Definition ev (v : variant) (asc : bool) (cs : list (nat * nat * nat * list token)) :=\n"
+               "  map (fun c => match c with (n, k, m, toks) => replay v asc n k m toks end) cs.")
+    keys = [("VCorrect", True), ("VCorrect", False), ("VFlagEarly", True), ("VRequestedOnce", True), ("VNoOuterLock", True)]
     for v, asc in keys:
         for nm in names:
             src.append("Eval vm_compute in ev %s %s %s." % (v, "true" if asc else "false", nm))
@@ -142,23 +176,29 @@ def model_eval(cases, traces):
 
 
 # ------------------------------------------------------------------ comparison
+RERUN_CLASS, RERUN_MARK = "concurrent-dependency-rerun", "the dependency's command was started"
+SEEN = {"c": 1, "s": 0, "m": 0, "t": 2}      # what a reader found: current | stale or missing (= not current) | torn
+
+
 def impl_windows(n, tr):
     """The implementation's trace in the model's window format + the reads that arrived per window."""
-    ws, gets = [], []
+    ws, gets, runs = [], [], 0
     for w in tr["windows"]:
         cmds = []
         for e in w["events"]:
             if e.startswith("cmd:"):
                 _, t, seen = e.split(":")
-                cmds.append([int(t)] + [1 if ch == "c" else 0 for ch in (seen if seen != "-" else "")])
-        ws.append([[0 if w["tok"] == "g:-" else 1] + sorted(w["held"])] + sorted(cmds))
+                cmds.append([int(t)] + [SEEN[ch] for ch in (seen if seen != "-" else "")])
+        runs += w["events"].count("run")
+        ws.append([[0 if w["tok"] in ("g:-", "r:-") else 1, w["gate"], runs], sorted(w["held"])] + sorted(cmds))
         gets.append(sorted(int(e[4:]) for e in w["events"] if e.startswith("get:")))
     return ws, gets
 
 
 def norm(model_ws):
-    """model windows with the commands of a window sorted by task (their order inside a window is scheduling)"""
-    return [[w[0][:1] + sorted(w[0][1:])] + sorted(w[1:]) for w in model_ws[:-1]], sorted(model_ws[-1][0])
+    """model windows with the commands of a window sorted by task (their order inside a window is scheduling);
+    -> (windows, tasks not done at the end, what the re-runs cached)"""
+    return [[w[0], sorted(w[1])] + sorted(w[2:]) for w in model_ws[:-1]], sorted(model_ws[-1][0]), model_ws[-1][1:]
 
 
 def oracle(n, k, tr):
@@ -169,11 +209,16 @@ def oracle(n, k, tr):
         return "deadlock: dependants %s started, every goroutine is blocked, no blob read is held, their commands never ran" % tr["pending"]
     if tr["verdict"] != "ok":
         return "no quiescence (%s)" % tr["verdict"]
-    ran = {}
+    ran, runs = {}, 0
     for wi, w in enumerate(tr["windows"]):
+        runs += w["events"].count("run")
+        if w["gate"] > 1 or runs > 1:
+            return ("the dependency's command was started %d times in one build%s (after token %d, %s): each dependant that finds the "
+                    "dependency unrestorable re-makes it, in the same package directory" % (
+                        runs, ", %d runs of it are under way at the same time" % w["gate"] if w["gate"] > 1 else "", wi + 1, w["tok"]))
         for e in w["events"]:
             if e.startswith("err:"):
-                return "LoadDependencyOutputs of dependant %s failed although the dependency is a readable cache hit" % e[4:]
+                return "LoadDependencyOutputs of dependant %s failed although the dependency can be restored or re-made" % e[4:]
             if e.startswith("cmd:"):
                 _, t, seen = e.split(":")
                 if t in ran:
@@ -181,7 +226,7 @@ def oracle(n, k, tr):
                 ran[t] = wi
                 bad = [i for i, ch in enumerate(seen if seen != "-" else "") if ch != "c"]
                 if bad:
-                    what = {"s": "stale", "m": "missing"}
+                    what = {"s": "stale", "m": "missing", "t": "torn (half written by a run of the dependency's command)"}
                     return ("the command of dependant %s ran (after token %d, %s) while output(s) %s of its dependency were %s%s" % (
                         t, wi + 1, w["tok"], bad, "/".join(sorted({what[seen[i]] for i in bad})),
                         ": blob read(s) %s still held at the gate" % w["held"] if w["held"] else ""))
@@ -189,31 +234,36 @@ def oracle(n, k, tr):
     missing = [t for t in started if str(t) not in ran]
     if missing:
         return "dependants %s were started but their command never ran" % missing
+    if tr.get("cached", "-") != "-" and set(tr["cached"]) != {"c"}:
+        return "after the re-run the cache holds bytes of the dependency that are not its current outputs (%s per output; t = torn)" % tr["cached"]
     return None
 
 
 def compare(n, k, tr, m_asc, m_desc, cap):
     """Is the implementation's trace one the model allows?  None, or the first difference."""
     iw, gets = impl_windows(n, tr)
-    (a, a_nd), (b, b_nd) = norm(m_asc), norm(m_desc)
     started = {int(w["tok"][1:]) for w in tr["windows"] if w["tok"].startswith("s")}
+    cached = [] if tr.get("cached", "-") == "-" else [SEEN[ch] for ch in tr["cached"]]
     diffs = []
-    for name, (mw, nd) in (("lowest task first", (a, a_nd)), ("highest task first", (b, b_nd))):
+    for name, (mw, nd, wrote) in (("lowest task first", norm(m_asc)), ("highest task first", norm(m_desc))):
         diff = None
         prev_held = []
         for i, (x, y) in enumerate(zip(iw, mw)):
-            xs, ys = (x, y) if cap >= n else ([x[0][:1]] + x[1:], [y[0][:1]] + y[1:])   # a smaller restore pool holds fewer reads at a time
+            xs, ys = (x, y) if cap >= n else ([x[0]] + x[2:], [y[0]] + y[2:])   # a smaller restore pool holds fewer reads at a time
             if xs != ys:
-                diff = "window %d (%s): implementation %s, model %s  [format: [enabled, held reads...], [task, 1=current/0=stale per output]...]" % (
-                    i + 1, tr["windows"][i]["tok"], x, y)
+                diff = ("window %d (%s): implementation %s, model %s  [format: [enabled, runs of the dependency's command at their gate, runs so far], "
+                        "[held reads...], [task, 1=current/0=stale/2=torn per output]...]" % (i + 1, tr["windows"][i]["tok"], x, y))
                 break
-            new = sorted(set(y[0][1:]) - set(prev_held))
+            new = sorted(set(y[1]) - set(prev_held))
             if cap >= n and gets[i] != new:
                 diff = "window %d (%s): blob reads that reached the cache %s, the model starts the restores %s" % (i + 1, tr["windows"][i]["tok"], gets[i], new)
                 break
-            prev_held = y[0][1:]
+            prev_held = y[1]
         if diff is None and sorted(tr["pending"]) != [t for t in nd if t in started]:
             diff = "at the end: dependants %s have not run their command, model: %s" % (tr["pending"], [t for t in nd if t in started])
+        if diff is None and cached != (wrote[-1][1:] if wrote else []):
+            diff = "at the end: the cache holds %s for the dependency's outputs after the re-run, model: %s (1=current/0=stale/2=torn)" % (
+                cached, wrote[-1][1:] if wrote else "no re-run")
         if diff is None:
             return None
         diffs.append(diff)
@@ -227,17 +277,23 @@ def explains(n, tr, mv):
 
 HOW = ("schedule tokens: s<t> = dependant t is handed to a worker (Executor.LoadDependencyOutputs, then its command = a Go closure that "
        "reads the dependency's files); g / G = ONE blob read held at the cache backend's gate is released (lowest / highest output "
-       "index); after every token the harness waits until every goroutine is blocked.  trace windows: <token>/<reads still held>/<events>, "
-       "events: tget = target result read, get:<i> = read of blob i reached the cache, cmd:<t>:<c|s|m per output> = command of t ran and "
-       "saw current|stale|missing.  init: s = workspace copy stale, m = missing.  Replay: ./check C15 --replay <this file>")
+       "index); r = the oldest run of the dependency's own command (a real shell command: half-writes every output, waits at a FIFO, "
+       "writes every output completely) that waits at its gate goes on; after every token the harness waits until every goroutine is "
+       "blocked and every such run sits at its gate.  lost_blobs_from = m: the blobs of the outputs m..n-1 are deleted from the cache, a "
+       "dependant has to re-make the dependency.  trace windows: <token>/<reads still held>/<runs at their gate>/<events>, events: tget = "
+       "target result read, get:<i> = read of blob i reached the cache, lost:<i> = read of the lost blob i failed, run / ran = a run of "
+       "the dependency's command started / ended, cmd:<t>:<c|s|m|t per output> = command of t ran and saw current|stale|missing|torn; "
+       "end/<pending>/<verdict>/<bytes cached after a re-run>.  init: s = workspace copy stale, m = missing.  "
+       "Replay: ./check C15 --replay <this file>")
 
 
 def record(case, tr, model, idx, name=None):
-    n, k, sched, init = case
+    n, k, sched, init, lost = case
     return {"stage": "depload", "description": name or "generated schedule", "outputs_of_dependency": n, "dependants": k,
-            "schedule": sched, "init": init or "s" * n,
-            "trace": ";".join("%s/%s/%s" % (w["tok"], "+".join(map(str, w["held"])) or "-", ",".join(w["events"]) or "-") for w in tr.get("windows", [])) +
-                     ";end/%s/%s" % ("+".join(map(str, tr.get("pending", []))) or "-", tr.get("verdict", tr.get("error"))),
+            "schedule": sched, "init": init or "s" * n, "lost_blobs_from": lost,
+            "trace": ";".join("%s/%s/%d/%s" % (w["tok"], "+".join(map(str, w["held"])) or "-", w["gate"], ",".join(w["events"]) or "-")
+                              for w in tr.get("windows", [])) +
+                     ";end/%s/%s/%s" % ("+".join(map(str, tr.get("pending", []))) or "-", tr.get("verdict", tr.get("error")), tr.get("cached", "-")),
             "model_windows": {"%s%s" % (v, "" if asc else " (highest task first)"): model[(v, asc)][idx] for (v, asc) in model} if model else None,
             "how": HOW}
 
@@ -252,13 +308,13 @@ def stage(out, tier, only=None):
         out.cov["depload"] = {"available": False}
         return None
     t_build = time.time() - t0
-    named = [(n, k, s, "") for (_, n, k, s) in NAMED]
+    named = [(n, k, s, "", m) for (_, n, k, s, m) in NAMED]
     names = {i: NAMED[i][0] for i in range(len(NAMED))}
     if only is not None:
         cases, names = list(only), {}
     else:
         r = vlib.Rng(vlib.seed() * 104729 + 1515)
-        cases = named + small_schedules() + random_schedules(r, 60 if tier == "quick" else 2000)
+        cases = named + small_schedules() + small_fault_schedules() + random_schedules(r, 60 if tier == "quick" else 2000)
     t1 = time.time()
     traces, cap = run_harness(binary, cases)
     t_impl = time.time() - t1
@@ -268,7 +324,8 @@ def stage(out, tier, only=None):
     pos = {ci: j for j, ci in enumerate(ok_idx)}
     t_model = time.time() - t1
     bad_oracle, bad_model, nondet = [], [], 0
-    stats = {"arrived_during_restore": 0, "blocked_on_lock": 0, "fast_path": 0, "recheck_under_lock": 0, "windows": 0, "commands": 0}
+    stats = {"arrived_during_restore": 0, "arrived_during_rerun": 0, "blocked_on_lock": 0, "fast_path": 0, "flag_seen_after_waiting": 0,
+             "fault_schedules": 0, "reruns": 0, "windows": 0, "commands": 0}
     for i, (case, tr) in enumerate(zip(cases, traces)):
         n, k = case[0], case[1]
         o = oracle(n, k, tr)
@@ -282,51 +339,68 @@ def stage(out, tier, only=None):
         d = compare(n, k, tr, model[("VCorrect", True)][j], model[("VCorrect", False)][j], cap)
         if d is not None:
             why = [v for v in VARIANTS[1:] if explains(n, tr, model[(v, True)][j])]
-            bad_model.append((i, d + ("; the trace is exactly what the model variant %s (a seeded order) does" % "/".join(why) if why else "")))
-        prev_held = []
+            bad_model.append((i, d + ("; the trace is exactly what the model variant %s (a seeded order / the order before the repair of C15-F1) does" % "/".join(why) if why else "")))
+        prev_held, prev_gate = [], 0
+        stats["fault_schedules"] += 1 if case[4] < n else 0
         for w in tr["windows"]:
             stats["windows"] += 1
             cm = [e for e in w["events"] if e.startswith("cmd:")]
             stats["commands"] += len(cm)
+            stats["reruns"] += w["events"].count("run")
             if w["tok"].startswith("s"):
                 if prev_held:
                     stats["arrived_during_restore"] += 1
-                if "tget" in w["events"] and not cm and not any(e.startswith("get:") for e in w["events"]):
-                    stats["blocked_on_lock"] += 1
+                if prev_gate:
+                    stats["arrived_during_rerun"] += 1
+                if (prev_held or prev_gate) and not cm:
+                    stats["blocked_on_lock"] += 1      # waits for the per-dependency lock (before the repair: for the registry's)
                 if "tget" not in w["events"] and cm:
                     stats["fast_path"] += 1
             elif len(cm) > 1:
-                stats["recheck_under_lock"] += len(cm) - 1
-            prev_held = w["held"]
+                stats["flag_seen_after_waiting"] += len(cm) - 1
+            prev_held, prev_gate = w["held"], w["gate"]
     # named schedules first, then the shortest; at most two failing schedules of each kind are reported.  A schedule that fails
     # the model-free oracle also says how it differs from the model (and which seeded variant of the model behaves like that)
     key = lambda x: (x[0] not in names, cases[x[0]][2].count(",") + cases[x[0]][0] + cases[x[0]][1], x[0])
     diffs = dict(bad_model)
-    for i, o in sorted(bad_oracle, key=key)[:2]:
-        n, k, sched, init = cases[i]
-        out.violation("concurrent dependency loading (stage depload, n=%d outputs, k=%d dependants, schedule %s): %s%s" % (
-            n, k, sched, o, ("; against DepLoad.v: " + diffs[i]) if i in diffs else ""),
-            record(cases[i], traces[i], model if i in pos else None, pos.get(i), names.get(i)))
+    # a finding listed in known_findings.txt (class concurrent-dependency-rerun, C15-F1 before its repair): the schedules in which the
+    # dependency's command is started more than once are reported as that finding
+    listed = {f["class"]: f for f in vlib.known_findings("C15")}.get(RERUN_CLASS)
+    reported = 0
+    for i, o in sorted(bad_oracle, key=key):
+        n, k, sched, init, lost = cases[i]
+        what = "concurrent dependency loading (stage depload, n=%d outputs, k=%d dependants%s, schedule %s): %s%s" % (
+            n, k, ", blobs %s lost" % list(range(lost, n)) if lost < n else "", sched, o, ("; against DepLoad.v: " + diffs[i]) if i in diffs else "")
+        if listed and o.startswith(RERUN_MARK):
+            out.known(listed["id"], what)
+        elif reported < 2:
+            reported += 1
+            out.violation(what, record(cases[i], traces[i], model if i in pos else None, pos.get(i), names.get(i)))
     failed = {i for i, _ in bad_oracle}
     for i, d in [x for x in sorted(bad_model, key=key) if x[0] not in failed][:2]:
-        n, k, sched, init = cases[i]
-        out.violation("concurrent dependency loading (stage depload, n=%d outputs, k=%d dependants, schedule %s): the real code leaves the "
-                      "traces DepLoad.v allows: %s" % (n, k, sched, d), record(cases[i], traces[i], model, pos[i], names.get(i)))
+        n, k, sched, init, lost = cases[i]
+        out.violation("concurrent dependency loading (stage depload, n=%d outputs, k=%d dependants%s, schedule %s): the real code leaves the "
+                      "traces DepLoad.v allows: %s" % (n, k, ", blobs %s lost" % list(range(lost, n)) if lost < n else "", sched, d),
+                      record(cases[i], traces[i], model, pos[i], names.get(i)))
     out.cov["depload"] = {
-        "available": True, "schedules": len(cases), "distinct_schedules": len({(c[0], c[1], c[2]) for c in cases}),
-        "named": len(named) if only is None else 0, "exhaustive_small": "every interleaving of k<=%d starts with n<=%d releases" % (MAXK, MAXN),
+        "available": True, "schedules": len(cases), "distinct_schedules": len({(c[0], c[1], c[2], c[4]) for c in cases}),
+        "named": len(named) if only is None else 0, "exhaustive_small": "every interleaving of k<=%d starts with n<=%d releases; with the "
+        "blobs m..n-1 lost (n<=2): every interleaving of k<=3 starts, the m releases and one go of the re-run" % (MAXK, MAXN),
         "oracle_failures": len(bad_oracle), "model_mismatches": len(bad_model), "model_schedule_dependent": nondet,
         "restore_pool_size": cap, **stats,
         "seconds": {"harness_build": round(t_build, 1), "implementation": round(t_impl, 1), "coqc": round(t_model, 1)},
-        "rule": "per window: held blob reads, reads that arrived, commands run and what each saw, equal to DepLoad.replay (VCorrect) "
-                "under both settle orders; model-free: every command saw every output current, no error, no hang",
+        "rule": "per window: held blob reads, reads that arrived, runs of the dependency's command at their gate and started so far, commands "
+                "run and what each saw, at the end the bytes cached by a re-run, equal to DepLoad.replay (VCorrect) under both settle orders; "
+                "model-free: every command saw every output current, the dependency's command started at most once, no torn bytes cached, "
+                "no error, no hang",
         "samples": [record(cases[i], traces[i], None, None, names.get(i)) for i in range(min(3, len(cases)))]}
     return cases, traces, model
 
 
 def replay(out, rp):
-    case = (rp["outputs_of_dependency"], rp["dependants"], rp["schedule"], rp.get("init", ""))
-    print("stage depload: %d outputs, %d dependants, schedule %s, workspace copies %s" % (case[0], case[1], case[2], case[3] or "all stale"))
+    case = (rp["outputs_of_dependency"], rp["dependants"], rp["schedule"], rp.get("init", ""), rp.get("lost_blobs_from", rp["outputs_of_dependency"]))
+    print("stage depload: %d outputs, %d dependants, schedule %s, workspace copies %s, lost blobs %s" % (
+        case[0], case[1], case[2], case[3] or "all stale", list(range(case[4], case[0])) or "none"))
     print("recorded trace : " + rp["trace"])
     res = stage(out, "quick", only=[case])
     if res is None:
